@@ -50,7 +50,9 @@ pub fn parse_objective(objective: Pair<Rule>) -> Result<PreObjective, Compilatio
                         Ok(OptimizationType::Satisfy) => Ok(PreObjective::new(
                             obj_type.unwrap(),
                             PreExp::Primitive(Spanned::new(
-                                Primitive::Boolean(true),
+                                // the placeholder objective of a feasibility problem is the constant 0, as in
+                                // ModelBuilder::satisfy and in the good_lp back ends
+                                Primitive::Number(0.0),
                                 InputSpan::from_pair(&objective_type),
                             )),
                         )),
